@@ -133,3 +133,114 @@ Check C11_numbers_cleanup_kill_keeps_acked.
 Print Assumptions C11_numbers_cleanup_kill_keeps_acked.
 Check C11_numbers_cleanup_kill_restart.
 Print Assumptions C11_numbers_cleanup_kill_restart.
+
+Require Import FL.Flw.TsTime FL.Flw.TsNames FL.Flw.TsInv FL.Flw.TsRun FL.Flw.TsTheorems FL.Flw.TsdInv FL.Flw.TsdRun FL.Flw.TsdRestartInv FL.Flw.TsdRestart
+  FL.Flw.TsdKill FL.Flw.TsdKillRestart.
+(* TimestampsDirect naming, direct mode, ANY history (the clock never goes back) and ANY kill point: what the killed process leaves is a
+   directory that a stopped writer could have left (files named by keys, keys_ok: pairwise distinct names in the order of creation), and the
+   files hold exactly the acknowledged records, in order.  The newest file may be empty (kill between its creation and the first write into
+   it: C11_timestampsdirect_kill_shape) *)
+Theorem C11_timestampsdirect_kill_keeps_acked c crit t0 off ops1 k ops2 :
+  tsdcfg c crit -> tag_ok c -> c_cap c = None ->
+  Forall basic_op ops1 -> Forall basic_op ops2 -> Forall tick_ok ops1 -> Forall tick_ok ops2 ->
+  let e := ts_e c off in
+  (0 <= t0 + e)%Z -> (t0 + elapsed ops1 + elapsed ops2 + e < sec_max)%Z ->
+  (N.of_nat (length ops1 + length ops2) <= usize_max)%N ->
+  let x1 := fst (run (sys0 t0 off) (OStart c :: ops1 ++ [OSetKill k])) in
+  let xe := fst (run (sys0 t0 off) (OStart c :: ops1 ++ [OSetKill k] ++ ops2 ++ [OCrash])) in
+  exists keys files,
+    tsd_view c e (wfs (s_w xe)) keys files
+    /\ keys_ok keys
+    /\ (forall key, In key keys -> (t0 <= fst key <= t0 + elapsed ops1 + elapsed ops2)%Z)
+    /\ concat files = written ops1 ++ acked x1 ops2.
+Proof. exact (timestampsdirect_kill_keeps_acked c crit t0 off ops1 k ops2). Qed.
+
+(* size criterion: the files are those of the size run of the acknowledged history, or these and one more, EMPTY, newest file *)
+Theorem C11_timestampsdirect_kill_shape c m t0 off ops1 k ops2 :
+  tsdcfg c (CSize m) -> tag_ok c -> c_cap c = None ->
+  Forall basic_op ops1 -> Forall basic_op ops2 -> Forall tick_ok ops1 -> Forall tick_ok ops2 ->
+  let e := ts_e c off in
+  (0 <= t0 + e)%Z -> (t0 + elapsed ops1 + elapsed ops2 + e < sec_max)%Z ->
+  (N.of_nat (length ops1 + length ops2) <= usize_max)%N ->
+  let x1 := fst (run (sys0 t0 off) (OStart c :: ops1 ++ [OSetKill k])) in
+  let xe := fst (run (sys0 t0 off) (OStart c :: ops1 ++ [OSetKill k] ++ ops2 ++ [OCrash])) in
+  exists j keys files,
+    acked x1 ops2 = written (firstn j ops2)
+    /\ tsd_view c e (wfs (s_w xe)) keys files /\ keys_ok keys
+    /\ (files = files_of (s_run m None (ops1 ++ firstn j ops2))
+        \/ files = files_of (s_run m None (ops1 ++ firstn j ops2)) ++ [[]]).
+Proof. exact (timestampsdirect_kill_shape c m t0 off ops1 k ops2). Qed.
+
+(* ... and a TimestampsDirect logger (same file spec and use_utc; own criterion, capacity, append flag; append: the infix is found in the
+   names) started on that directory dt >= 0 seconds later succeeds in every operation and ends with exactly acknowledged ++ what it wrote
+   itself; keys_ok over both runs: no name is used twice (restart counter when it starts in the second of the killed writer's last file) *)
+Theorem C11_timestampsdirect_kill_restart c crit c' crit' t0 off ops1 k ops2 dt ops3 :
+  tsdcfg c crit -> tag_ok c -> c_cap c = None ->
+  tsdcfg c' crit' -> c_spec c' = c_spec c -> c_utc c' = c_utc c -> (c_append c' = true -> probe_ok c') ->
+  Forall basic_op ops1 -> Forall basic_op ops2 -> Forall basic_op ops3 ->
+  Forall tick_ok ops1 -> Forall tick_ok ops2 -> Forall tick_ok ops3 -> (0 <= dt)%Z ->
+  let e := ts_e c off in
+  (0 <= t0 + e)%Z -> (t0 + elapsed ops1 + elapsed ops2 + dt + elapsed ops3 + e < sec_max)%Z ->
+  (N.of_nat (length ops1 + length ops2 + length ops3 + 1) <= usize_max)%N ->
+  let x1 := fst (run (sys0 t0 off) (OStart c :: ops1 ++ [OSetKill k])) in
+  let xk := fst (run (sys0 t0 off) (OStart c :: ops1 ++ [OSetKill k] ++ ops2 ++ [OCrash])) in
+  let r2 := run xk (OTick dt :: OStart c' :: ops3 ++ [OStop]) in
+  Forall obs_ok (snd r2)
+  /\ exists keys files,
+       tsd_view c' e (wfs (s_w (fst r2))) keys files
+       /\ keys_ok keys
+       /\ (forall key, In key keys -> (t0 <= fst key <= t0 + elapsed ops1 + elapsed ops2 + dt + elapsed ops3)%Z)
+       /\ concat files = written ops1 ++ acked x1 ops2 ++ written ops3.
+Proof. exact (timestampsdirect_kill_restart c crit c' crit' t0 off ops1 k ops2 dt ops3). Qed.
+
+Check C11_timestampsdirect_kill_keeps_acked.
+Print Assumptions C11_timestampsdirect_kill_keeps_acked.
+Check C11_timestampsdirect_kill_shape.
+Print Assumptions C11_timestampsdirect_kill_shape.
+Check C11_timestampsdirect_kill_restart.
+Print Assumptions C11_timestampsdirect_kill_restart.
+
+Require Import FL.Flw.TsRestartInv FL.Flw.TsRestart FL.Flw.TsKill FL.Flw.TsKillRestart.
+(* Timestamps naming (rCURRENT), direct mode, ANY history and ANY kill point: the closed files - named by keys, keys_ok - and rCURRENT IF IT
+   EXISTS (a kill between the rename and the creation of a rotation leaves none) hold exactly the acknowledged records, in order *)
+Theorem C11_timestamps_kill_keeps_acked c crit t0 off ops1 k ops2 :
+  tscfg c crit -> tag_ok c -> c_cap c = None ->
+  Forall basic_op ops1 -> Forall basic_op ops2 -> Forall tick_ok ops1 -> Forall tick_ok ops2 ->
+  let e := ts_e c off in
+  (0 <= t0 + e)%Z -> (t0 + elapsed ops1 + elapsed ops2 + e < sec_max)%Z ->
+  (N.of_nat (1 + length ops1 + length ops2) <= usize_max)%N ->
+  let x1 := fst (run (sys0 t0 off) (OStart c :: ops1 ++ [OSetKill k])) in
+  let xe := fst (run (sys0 t0 off) (OStart c :: ops1 ++ [OSetKill k] ++ ops2 ++ [OCrash])) in
+  exists keys closed ocur,
+    ts_view_opt c e (wfs (s_w xe)) keys closed ocur
+    /\ keys_ok keys
+    /\ (forall key, In key keys -> (t0 <= fst key <= t0 + elapsed ops1 + elapsed ops2)%Z)
+    /\ concat closed ++ (match ocur with Some cu => cu | None => [] end) = written ops1 ++ acked x1 ops2.
+Proof. exact (timestamps_kill_keeps_acked c crit t0 off ops1 k ops2). Qed.
+
+(* ... and a Timestamps logger (same file spec and use_utc; own criterion, capacity, append flag) started on that directory dt >= 0 seconds
+   later succeeds in every operation - also when there is no rCURRENT - and ends with exactly acknowledged ++ what it wrote itself; keys_ok
+   over both runs: no name is used twice *)
+Theorem C11_timestamps_kill_restart c crit c' crit' t0 off ops1 k ops2 dt ops3 :
+  tscfg c crit -> tag_ok c -> c_cap c = None ->
+  tscfg c' crit' -> c_spec c' = c_spec c -> c_utc c' = c_utc c ->
+  Forall basic_op ops1 -> Forall basic_op ops2 -> Forall basic_op ops3 ->
+  Forall tick_ok ops1 -> Forall tick_ok ops2 -> Forall tick_ok ops3 -> (0 <= dt)%Z ->
+  let e := ts_e c off in
+  (0 <= t0 + e)%Z -> (t0 + elapsed ops1 + elapsed ops2 + dt + elapsed ops3 + e < sec_max)%Z ->
+  (N.of_nat (length ops1 + length ops2 + length ops3 + 2) <= usize_max)%N ->
+  let x1 := fst (run (sys0 t0 off) (OStart c :: ops1 ++ [OSetKill k])) in
+  let xk := fst (run (sys0 t0 off) (OStart c :: ops1 ++ [OSetKill k] ++ ops2 ++ [OCrash])) in
+  let r2 := run xk (OTick dt :: OStart c' :: ops3 ++ [OStop]) in
+  Forall obs_ok (snd r2)
+  /\ exists keys closed ocur,
+       ts_view_opt c' e (wfs (s_w (fst r2))) keys closed ocur
+       /\ keys_ok keys
+       /\ (forall key, In key keys -> (t0 <= fst key <= t0 + elapsed ops1 + elapsed ops2 + dt + elapsed ops3)%Z)
+       /\ concat closed ++ (match ocur with Some cu => cu | None => [] end) = written ops1 ++ acked x1 ops2 ++ written ops3.
+Proof. exact (timestamps_kill_restart c crit c' crit' t0 off ops1 k ops2 dt ops3). Qed.
+
+Check C11_timestamps_kill_keeps_acked.
+Print Assumptions C11_timestamps_kill_keeps_acked.
+Check C11_timestamps_kill_restart.
+Print Assumptions C11_timestamps_kill_restart.
